@@ -220,6 +220,20 @@ func (w *worker) runCase(cfg Cfg, name string, next func(*view) (string, bool)) 
 			post := in.snapshot()
 			orc.afterClose(c, post, in)
 			v.snap = post
+		case "frame", "response":
+			c, _ := strconv.Atoi(f[2])
+			closed, delivered := in.doNonRequest(c, f[1] == "frame")
+			post := in.snapshot()
+			line = post.String()
+			if delivered {
+				res.dist["non-request:"+f[1]+":closed="+b01(closed)]++
+			}
+			if closed {
+				orc.afterClose(c, post, in)
+			} else {
+				orc.afterQuiet(f[1], post, in)
+			}
+			v.snap = post
 		case "req":
 			r, err := parseReq(f[2:])
 			if err != nil {
@@ -551,6 +565,7 @@ func Run(c *corr.Ctx) {
 	addExhaustive(fullCfg, alphaWide, depth-1, "exh-multiconn")
 	addExhaustive(Cfg{Mask: 255, UDP: false, NMedias: 2}, alpha, 2, "exh-noudp")
 	addExhaustive(Cfg{Mask: 255, UDP: true, Mcast: true, NMedias: 2}, alphabetMcast(), 3, "exh-mcast")
+	addExhaustive(fullCfg, alphabetTCP(), c.N(4, 5), "exh-tcp")
 	c.Exhaustive()
 
 	// random conversations up to 12 requests, over several configurations
